@@ -17,7 +17,7 @@ for m in $list; do
     ids=$(echo "$out" | grep '^  identity:' | head -3 | sed 's/^  identity: //' | tr '\n' ';')
     res="$res$c:rc=$rc:violations=$nv:$ids\t"
   done
-  git -C /repo checkout -- .
+  git -C /repo checkout -- . ; git -C /repo clean -fdq
   echo -e "$m\t$res" | tee -a seeded/RESULTS.tsv.new
   python3 - "$d/meta.json" "$res" <<'PY'
 import json,sys
